@@ -195,6 +195,9 @@ func c18One(x *ctx, c refCase) bool {
 	lc := LoadCase{Files: map[string]string{"cfg.yaml": a.yaml()}, Main: "cfg.yaml", Note: c.String()}
 	r := loadInProcess(dir, lc)
 	r.release()
+	if exhausted(r) {
+		return false
+	}
 	x.res.Evaluations++
 	kinds := ""
 	for _, e := range c.Edits {
@@ -223,6 +226,8 @@ func c18One(x *ctx, c refCase) bool {
 		b := runBinary(dir, "-c", "cfg.yaml", "--output", "raw", p)
 		x.res.Extra["binary_runs"]++
 		switch {
+		case b.exhausted:
+			// not judged
 		case b.hang:
 			x.violation("run-hangs", kinds, fmt.Sprintf("running pipeline %s of an accepted configuration did not finish within 30s (%s)", p, c), c, true)
 			bad = true
